@@ -249,10 +249,10 @@ def call(ex, n, st, q, rd, objn, argn, method, want_lv):
                 return r
         if name in ('fft_alloc_real', 'fft_alloc_complex', 'prepareFFT', 'fft_execute'):
             return fft_call(ex, n, st, name, argn)
-        if name in ('two_pi', 'pi', 'one_div_root_two_pi') and not argn:
+        if name in ('two_pi', 'pi', 'one_div_root_two_pi', 'pi_sqr') and not argn:
             ex.ideal = True
             PI = uf_const('PI')
-            return RealV({'two_pi': 2 * PI, 'pi': PI, 'one_div_root_two_pi': uf_const('ONE_DIV_ROOT_TWO_PI')}[name], DOUBLE)
+            return RealV({'two_pi': 2 * PI, 'pi': PI, 'one_div_root_two_pi': uf_const('ONE_DIV_ROOT_TWO_PI'), 'pi_sqr': PI * PI}[name], DOUBLE)
         args = [ex.ev(a, st) for a in argn]
         r = math_call(ex, st, name, args)
         return r
@@ -763,6 +763,23 @@ def construct(ex, n, st, ct):
             arr = z3.Store(arr, i_, real(e_))
         st.arr[(region, '')] = arr
         st.leafct[(region, '')] = FLOAT
+        return ObjRef(region, ct.name)
+    if k == 'vector' and len(args) == 3 and parse_type(args[0].get('type')).kind == 'int' and 'allocator' in args[2].get('type', {}).get('qualType', ''):
+        # vector(n, value): n copies of value
+        nval = ex.ev(args[0], st)
+        val = ex.ev(args[1], st)
+        region = f'local:{ex.pending_name or "vec"}'
+        st.length[region] = nval.t
+        for key in list(st.arr):
+            if key[0] == region:
+                del st.arr[key]
+        for lf, lct in container_leaves(ct.name):
+            comp = val.fields[lf] if isinstance(val, StructV) else val
+            if lf and not isinstance(val, StructV):
+                # scalar converted to the element type (complex from real: imaginary part 0)
+                comp = val if lf == 're' else RealV(z3.RealVal(0), FLOAT)
+            st.arr[(region, lf)] = z3.K(z3.IntSort(), real(comp) if lct.kind == 'float' else comp.t)
+            st.leafct[(region, lf)] = lct
         return ObjRef(region, ct.name)
     if k == 'vector' and len(args) == 2 and parse_type(args[0].get('type')).kind == 'int':
         # vector(n): n value-initialised elements
